@@ -7,9 +7,10 @@ Every operation prints its result followed by the canonical dump of both sides:
 lists sorted by id; a local record is `id!G!insync` (placeholder) or
 `id!E!<def>!tok!isLocal!inSync!deleted`; a service definition is `name;tags;eto;port;ta`
 (tags joined by `+`, tagged addresses `key~val` joined by `+`), a check definition
-`sid;status;sname;stags`.
+`sid;status;sname;stags;rest`. A sync line ends with `T=` the list of the RPCs issued, in order
+(see `encCall`).
 -/
-import CV.AE
+import CV.AETok
 namespace CV.Engine.C16
 open CV CV.AE
 
@@ -42,9 +43,9 @@ def decSvcDef (tok : String) : Option SvcDef :=
 
 def decChkDef (tok : String) : Option ChkDef :=
   match tok.splitOn ";" with
-  | [s, st, n, t] => do
-      let sid ← decS s; let status ← st.toNat?; let sname ← decS n; let stags ← decTags t
-      pure ⟨sid, status, sname, stags⟩
+  | [s, st, n, t, r] => do
+      let sid ← decS s; let status ← st.toNat?; let sname ← decS n; let stags ← decTags t; let rest ← r.toNat?
+      pure ⟨sid, status, sname, stags, rest⟩
   | _ => none
 
 def decChkItem (tok : String) : Option (Id × ChkDef) :=
@@ -106,7 +107,7 @@ def encSvcDef (d : SvcDef) : String :=
   ";".intercalate [encS d.name, encTags d.tags, encBool d.eto, toString d.port, encTa d.ta]
 
 def encChkDef (d : ChkDef) : String :=
-  ";".intercalate [encS d.sid, toString d.status, encS d.sname, encTags d.stags]
+  ";".intercalate [encS d.sid, toString d.status, encS d.sname, encTags d.stags, toString d.rest]
 
 def encEnt {δ : Type} (encD : δ → String) (p : Id × Ent δ) : String :=
   match p.2 with
@@ -126,6 +127,12 @@ def dump (l : Local) (c : Cat) : String :=
   let cc := (sortByKey c.chks).map fun p => encS p.1 ++ "!" ++ encChkDef p.2
   let cn := match c.node with | none => "-" | some v => toString v
   s!"n={encBool l.nodeInSync} S={encList ls} C={encList lc} | N={cn} s={encList cs} c={encList cc}"
+
+def sortIds (l : List Id) : List Id := (sortByKey (l.map fun k => (k, ()))).map (·.1)
+
+/-- one RPC as the servers see it: `kind!id!token!SkipNodeUpdate!piggy-backed checks!pulled-in service` -/
+def encCall (c : Call) : String :=
+  "!".intercalate [c.kind, encS c.id, encS c.tok, encBool c.skip, encPlus ((sortIds c.piggy).map encS), encS c.withSvc]
 
 def encRes : Res → String
   | .ok => "ok" | .err => "err" | .panic => "panic"
@@ -150,6 +157,15 @@ def step (s : EState) (toks : List String) : EState × String :=
     | some v, some ct, some ut, some cui =>
       ({ cfg := { nodeVal := v, cfgTok := ct, userTok := ut, cui := cui }, l := Local.empty, c := Cat.empty }, "ok")
     | _, _, _, _ => (s, "bad-op")
+  | ["reset", v, ct, ut, cui, atok] =>
+    match v.toNat?, decS ct, decS ut, decBool cui, decS atok with
+    | some v, some ct, some ut, some cui, some atok =>
+      ({ cfg := { nodeVal := v, cfgTok := ct, userTok := ut, cui := cui, agentTok := atok }, l := Local.empty, c := Cat.empty }, "ok")
+    | _, _, _, _, _ => (s, "bad-op")
+  | ["agenttok", atok] =>
+    match decS atok with
+    | some atok => ({ s with cfg := { s.cfg with agentTok := atok } }, "ok")
+    | _ => (s, "bad-op")
   | ["fire", k] =>
     match decS k with
     | some k => out { s with l := fire s.l k } "ok"
@@ -157,7 +173,7 @@ def step (s : EState) (toks : List String) : EState × String :=
   | ["addsvc", id, d, tok, loc, cs] =>
     match decS id, decSvcDef d, decS tok, decBool loc, (decList cs).mapM decChkItem with
     | some id, some d, some tok, some loc, some cs =>
-      let (r, l') := addSvc s.l id d tok loc cs
+      let (r, l') := addSvcN s.l id d tok loc cs
       out { s with l := l' } (encRes r)
     | _, _, _, _, _ => (s, "bad-op")
   | ["addchk", k, d, tok, loc] =>
@@ -209,7 +225,10 @@ def step (s : EState) (toks : List String) : EState × String :=
       | some f, some so, some co =>
         let r := if kind == "full" then syncFull s.cfg ⟨so, co⟩ f s.l s.c
                  else syncChanges s.cfg ⟨so, co⟩ f s.l s.c
-        out { s with l := r.l, c := r.c } (if r.ok then "ok" else "err")
+        let tr := if kind == "full" then syncFullTrace s.cfg ⟨so, co⟩ f s.l s.c
+                  else syncChangesTrace s.cfg ⟨so, co⟩ f s.l s.c
+        let (s', o) := out { s with l := r.l, c := r.c } (if r.ok then "ok" else "err")
+        (s', o ++ " T=" ++ encList (tr.map encCall))
       | _, _, _ => (s, "bad-op")
     else (s, "bad-op")
   | ["ae", st, paused, ev, ok] =>
